@@ -803,6 +803,11 @@ class TradingEnvXY(TradingEnv):
         # TODO: test no past events are not processed - no need to spend computation in warming up if not needee.
         markov_reset = window == 1
         warmup = None if markov_reset else timedelta(days=3 + window * 2)
+        if warmup is not None and len(X.index) >= window:
+            # The warm-up must reach back far enough to replay a full window
+            # of observations, however long the gaps between rows of X are.
+            spans = X.index[window - 1:] - X.index[:len(X.index) - window + 1]
+            warmup = max(warmup, spans.max().to_pytimedelta())
         timesteps = self._make_timesteps(X, Y, calendar, window)
         transmitter = Transmitter(timesteps, folds, markov_reset, warmup)
         for name in Y.columns:
